@@ -236,6 +236,62 @@ Proof.
 Qed.
 Print Assumptions C01_real_backward_computes_derivative_total.
 
+(* C01_graph_backward_call_is_adjoint_concrete on a graph of ANY world reachable by a history
+   over core_family (later, unevaluated operators allowed): `backward ... = Some`, wf_ops,
+   shape_ok and gclean are no longer hypotheses - they hold on every reachable graph
+   (C05_reachable_invariant) and backward returns (C06_backward_total) *)
+Theorem C01_graph_backward_call_is_adjoint_concrete_reachable
+  (R : Type) (rO rI : R) (radd rmul rsub : R -> R -> R) (ropp : R -> R)
+  (Rth : ring_theory rO rI radd rmul rsub ropp eq)
+  (tan : nat * nat -> @OpFamily.vec R) (dp : nat -> @OpFamily.vec R)
+  (e : @env (@OpFamily.vec R)) (cs : list (@cmd (@cop R) tshape (@OpFamily.vec R))) (gi : nat)
+  (g : @gstate (@cop R) tshape (@OpFamily.vec R)) (e0 : @env (@OpFamily.vec R)) (ps : list nat)
+  (Hreach : nth_error (w_graphs (run_all (core_family rO radd rmul rsub ropp) (vec_ops rO rI radd tsize)
+                                   {| w_graphs := []; w_env := e |} cs)) gi = Some g)
+  (Hcons : consistent (core_family rO radd rmul rsub ropp) (core_jvp rO radd rmul rsub ropp) tan dp (g_ops g) e0)
+  (Hsized : rsized (core_family rO radd rmul rsub ropp) tsize tan (g_ops g) e0)
+  (Hnodup : NoDup ps)
+  (Hcover : forall k oi p, nth_error (g_ops g) k = Some oi ->
+              f_inner (core_family rO radd rmul rsub ropp) (o_op oi) = Some p -> In p ps)
+  (n : nat * nat) (sn : @slot tshape (@OpFamily.vec R)) (v : @OpFamily.vec R)
+  (Hpsized : psz (core_family rO radd rmul rsub ropp) tsize (g_ops g) e0)
+  (Hn : get_slot g n = Some sn)
+  (Hv : s_val sn = Some v) :
+  exists g' e',
+    backward (core_family rO radd rmul rsub ropp) (vec_ops rO rI radd tsize) g e0 n = Some (g', e') /\
+    ppot rO radd rmul dp ps e' = radd (ppot rO radd rmul dp ps e0) (vsum rO radd (tan n)) /\
+    gclean (g_ops g') /\ e_pval e' = e_pval e0.
+Proof.
+  exact (C01_backward_call_is_adjoint_concrete_reachable rO rI radd rmul rsub ropp Rth tan dp e cs gi g e0 ps
+           Hreach Hcons Hsized Hnodup Hcover n sn v Hpsized Hn Hv).
+Qed.
+Print Assumptions C01_graph_backward_call_is_adjoint_concrete_reachable.
+
+Theorem C01_real_backward_call_is_adjoint_reachable
+  (tan : nat * nat -> @OpFamily.vec R) (dp : nat -> @OpFamily.vec R)
+  (e : @env (@OpFamily.vec R)) (cs : list (@cmd rop tshape (@OpFamily.vec R))) (gi : nat)
+  (g : @gstate rop tshape (@OpFamily.vec R)) (e0 : @env (@OpFamily.vec R)) (ps : list nat)
+  (Hreach : nth_error (w_graphs (run_all real_family (vec_ops 0%R 1%R Rplus tsize) {| w_graphs := []; w_env := e |} cs)) gi = Some g)
+  (Hcons : consistent real_family real_jvp tan dp (g_ops g) e0)
+  (Hsized : rsized real_family tsize tan (g_ops g) e0)
+  (Hnodup : NoDup ps)
+  (Hcover : forall k oi p, nth_error (g_ops g) k = Some oi -> f_inner real_family (o_op oi) = Some p -> In p ps)
+  (n : nat * nat) (sn : @slot tshape (@OpFamily.vec R)) (v : @OpFamily.vec R)
+  (Hpsized : psz real_family tsize (g_ops g) e0)
+  (Hn : get_slot g n = Some sn)
+  (Hv : s_val sn = Some v) :
+  exists g' e',
+    backward real_family (vec_ops 0%R 1%R Rplus tsize) g e0 n = Some (g', e') /\
+    ppot 0%R Rplus Rmult dp ps e' =
+      (ppot 0%R Rplus Rmult dp ps e0 +
+       OpFamily.dot 0%R Rplus Rmult (vones (vec_ops 0%R 1%R Rplus tsize) (s_shape sn)) (tan n))%R /\
+    gclean (g_ops g') /\ e_pval e' = e_pval e0.
+Proof.
+  exact (C01_backward_call_is_adjoint_real_reachable tan dp e cs gi g e0 ps Hreach Hcons Hsized Hnodup Hcover
+           n sn v Hpsized Hn Hv).
+Qed.
+Print Assumptions C01_real_backward_call_is_adjoint_reachable.
+
 (* Non-vacuity: the example tapes of Properties_C01_graph.v / _real.v are ready (so the premises of
    the total theorems hold for them); for the 41-operator tape cy and the 15-operator real tape ry
    the theorem is applied to EVERY node as target: the sweep returns and the added gradients pair
@@ -266,3 +322,15 @@ Example C01_graph_total_history_nonvacuous :
   forall gi g n, nth_error (w_graphs (run_all zF cVO cy_w0 cy_hist)) gi = Some g -> get_slot g n <> None ->
     forall e1, exists g' e', backward zF cVO g e1 n = Some (g', e').
 Proof. exact (conj zF_ok (conj cy_hist_valid cy_hist_total)). Qed.
+
+(* Non-vacuity of the reachable-graph form: the graph built by the history cy_cmds is cy_ops0;
+   for every node of it holding a value (the final forward evaluated all 41 operators) backward
+   returns and adds the derivative of the sum of that node *)
+Example C01_graph_total_reachable_nonvacuous :
+  exists g, nth_error (w_graphs (run_all zF cVO cy_w0 cy_cmds)) 0 = Some g /\ g_ops g = cy_ops0 /\
+    forall n sn v, get_slot g n = Some sn -> s_val sn = Some v ->
+      exists g' e',
+        backward zF cVO g cy_env n = Some (g', e') /\
+        ppot 0%Z Z.add Z.mul cy_dp [0; 1; 2; 3]%nat e' = (ppot 0%Z Z.add Z.mul cy_dp [0; 1; 2; 3]%nat cy_env + vsum 0%Z Z.add (cy_tan n))%Z /\
+        gclean (g_ops g') /\ e_pval e' = e_pval cy_env.
+Proof. exact cy_reachable_call. Qed.
